@@ -62,7 +62,7 @@ def lock? : List String → Option Lock
 
 /-- harness request name ↦ request kind of the generated table -/
 def reqKind? : String → Option Kind
-  | "validate" | "signholder" | "signcp" | "paycp" | "paycp1" | "payhv" => some .channel_request
+  | "validate" | "signholder" | "signcp" | "paycp" | "paycp1" | "payhv" | "hval0" | "hval1" | "refused" => some .channel_request
   | "point" => some .channel_base_request
   | "forget" | "forgetdb" => some .forget_channel
   | "balance" => some .channel_balance
@@ -180,6 +180,8 @@ def step (d : DState) (toks : List String) : DState × String :=
       | _ => (d, "bad-op")
     | _, _ => (d, "bad-op")
   | ["end"] => (d, endVerdict d)
+  /- the implementation run aborted the process (no trace): nothing to replay, echoed -/
+  | ["end", "abort"] => (d, "abort")
   /- model-only ops: replay a schedule on the canonical paths of the table.
      `sched <k1> <i1> <k2> <i2> : <t> <t> ...` answers the status after the schedule -/
   | "sched" :: k1 :: i1 :: k2 :: i2 :: ":" :: sch =>
